@@ -38,9 +38,14 @@ type Check struct {
 	Info  []string
 	Stats map[string]int
 	cfg   string
+	// relabel, when set, renames rule ids of obligations produced by shared rule code
+	relabel func(string) string
 }
 
 func (ck *Check) add(o Obligation) {
+	if ck.relabel != nil {
+		o.Rule = ck.relabel(o.Rule)
+	}
 	if ck.cfg != "" {
 		o.Key = o.Key + " [" + ck.cfg + "]"
 	}
